@@ -80,7 +80,7 @@ CHECKS = {
          "Non-termination is decided on the hooked logical steps (loops that call none of the hooked functions only trip the wall-clock watchdog, which is reported as inconclusive); inputs above 1 MiB only for the nesting probe; time complexity is not judged.",
          "DESIGN.md §5 C06"),
  "C17": ("exploration", "Go race detector (-race build) over a multi-goroutine driver with a detector canary, plus per-call comparison with sequential results",
-         "32-64 goroutines hammer a few hot shared objects per round with every observer and producer, both parsers run concurrently on shared inputs; the race log is scanned for reports with a library frame, a deliberately racy canary must be reported (else inconclusive), every concurrent result must equal the sequential one; evidence reports how many calls overlapped on the same object.",
+         "32-64 goroutines hammer a few hot shared objects per round with every observer and producer, both parsers run concurrently on shared inputs (a 600-deep nest decoded by all goroutines at once, long-running decodes and parses, 13 calls and 7 texts that must be refused alone and in company); the race log is scanned for reports with a library frame, a deliberately racy canary must be reported (else inconclusive), every concurrent result must equal the sequential one; evidence reports how many calls overlapped on the same object.",
          "Judges the schedules that happened (about 1.5e5 overlapping calls per quick run), not all interleavings.",
          "DESIGN.md §5 C17"),
 }
